@@ -173,6 +173,20 @@ pub fn sweep_c04(tier: &str, seed: u64) -> (usize, Vec<String>) {
                 check_striped("avx2/32 fresh", &a.stripe(&s[..]), &s, &case, &mut f);
                 a.stripe_into(&s[..], &mut buf_a); check_striped("avx2/32 reused", &buf_a, &s, &case, &mut f);
             }
+            // sequences whose padding cells are NOT wildcards (StripedSequence::new accepts any matrix; `sample` fills the padding
+            // with random symbols): indexing and counting must still agree with the linear sequence
+            if l > 0 {
+                let r = (l + 31) / 32;
+                let mut m = DenseMatrix::<Nucleotide, U32>::new(r);
+                for row in 0..r { for col in 0..32 { let p = col * r + row; m[row][col] = if p < l { s[p] } else { Dna::symbols()[(p * 7) % 4] }; } }
+                let mut st = StripedSequence::<Dna, U32>::new(m, l).unwrap();
+                for round in 0..2 {
+                    for p in 0..l { if st[p] != s[p] { f.push(fail("seq_index", format!("new(): striped[{}] != seq[{}]", p, p), case.clone())); break; } }
+                    let cs = SymbolCount::<Dna>::count_symbols(&st);
+                    for sym in Dna::symbols() { let want = s.iter().filter(|x| *x == sym).count(); if cs[sym.as_index()] != want || st.count_symbol(*sym) != want { f.push(fail("seq_count_symbols", format!("non-wildcard padding (round {}): count of {:?} = {} / {} expected {}", round, sym.as_char(), cs[sym.as_index()], st.count_symbol(*sym), want), case.clone())); break; } }
+                    st.configure_wrap(3);
+                }
+            }
             // histories of configure_wrap on the reused buffers
             let hist = [rng.below(4), rng.below(9), rng.below(3), rng.below(40)];
             for (bname, b) in [("generic", &mut buf_g), ("dispatch", &mut buf_d), ("avx2", &mut buf_a)] {
@@ -195,10 +209,11 @@ fn c05_alpha<A: Alphabet>(rng: &mut Rng, tier: &str, fails: &mut Vec<String>, n:
     let letters = A::as_str().as_bytes().to_vec();
     let bad: Vec<u8> = (0u8..=255).filter(|b| !letters.contains(b)).collect();
     let maxl = if tier == "thorough" { 100 } else { 70 };
-    for l in 0..=maxl {
+    let mut ls: Vec<usize> = (0..=maxl).collect(); ls.extend_from_slice(&[255, 256, 257, 300, 513, 1025]);
+    for l in ls {
         let base: Vec<u8> = (0..l).map(|_| letters[rng.below(letters.len())]).collect();
         let mut inputs = vec![base.clone()];
-        for p in 0..l { let mut v = base.clone(); v[p] = bad[rng.below(bad.len())]; inputs.push(v); }
+        for p in 0..l { if l > 120 && p % 37 != 0 { continue; } let mut v = base.clone(); v[p] = bad[rng.below(bad.len())]; inputs.push(v); }
         for _ in 0..4.min(l) { let mut v = base.clone(); let p1 = rng.below(l); let p2 = rng.below(l); v[p1] = bad[rng.below(bad.len())]; v[p2] = bad[rng.below(bad.len())]; inputs.push(v); }
         if l > 0 { let mut v = base.clone(); v[rng.below(l)] = letters[0].to_ascii_lowercase(); inputs.push(v); }
         for inp in inputs {
@@ -236,7 +251,9 @@ pub fn sweep_c05(tier: &str, seed: u64) -> (usize, Vec<String>) {
 // ---------------------------------------------------------------- C07 -------------------------------------------------
 fn scores_from<T: lightmotif::dense::MatrixElement>(rows: &[Vec<T>]) -> StripedScores<T, U32> {
     let mut sc = StripedScores::<T, U32>::empty();
-    sc.resize(rows.len(), rows.len() * 32);
+    // max_index is NOT always rows*32: the maximum is over every cell of the matrix, also those past the last valid position
+    let mi = match rows.len() % 3 { 0 => rows.len() * 32, 1 => rows.len() * 32 / 2, _ => 0 };
+    sc.resize(rows.len(), mi);
     for (i, r) in rows.iter().enumerate() { for j in 0..32 { sc.matrix_mut()[i][j] = r[j]; } }
     sc
 }
@@ -362,6 +379,23 @@ pub fn sweep_c08(tier: &str, seed: u64) -> (usize, Vec<String>) {
                         let real = pssm.score_position(&st, i);
                         if real.is_finite() && v[i] < dm.scale(real) { fails.push(fail("pwm_to_discrete", format!("{}: position {} byte score {} < scale(real score {}) = {}", name, i, v[i], real, dm.scale(real)), case.clone())); break; }
                     }
+                }
+            }
+        }
+        // row sub-ranges (what the scanner does block by block): cells of rows [a, b) through avx2 and dispatch
+        let rows_n = st.matrix().rows() - st.wrap();
+        if rows_n > 1 && l >= m {
+            let a = 1 + rng.below(rows_n - 1); let b = a + 1 + rng.below(rows_n - a);
+            for which in 0..2 {
+                if which == 0 && Pipeline::<Dna, lightmotif::pli::platform::Avx2>::avx2().is_err() { continue; }
+                n += 1;
+                let r = catch_unwind(AssertUnwindSafe(|| { let mut sc = StripedScores::<u8, U32>::empty(); sc.resize(rows_n + 3, 7);
+                    if which == 0 { Pipeline::<Dna, _>::avx2().unwrap().score_rows_into(&dm, &st, a..b, &mut sc); } else { Pipeline::<Dna, _>::dispatch().score_rows_into(&dm, &st, a..b, &mut sc); }
+                    (sc.matrix().rows(), (0..(b - a).min(sc.matrix().rows())).map(|r| sc.matrix()[r].to_vec()).collect::<Vec<_>>()) }));
+                match r {
+                    Err(_) => fails.push(fail("pli_score_u8", format!("rows {}..{}: panic at {}", a, b, panic_loc()), case.clone())),
+                    Ok((nr, mat)) => { if nr != b - a { fails.push(fail("pli_score_u8", format!("rows {}..{}: score matrix has {} rows", a, b, nr), case.clone())); }
+                        for (r, row) in mat.iter().enumerate() { for c in 0..32 { let p = c * rows_n + a + r; if p < want.len() && row[c] != want[p] { fails.push(fail("pli_score_u8", format!("rows {}..{}: cell ({},{}) = {} expected {}", a, b, r, c, row[c], want[p]), case.clone())); } } } }
                 }
             }
         }
@@ -497,7 +531,14 @@ pub fn sweep_c16(tier: &str, seed: u64) -> (usize, Vec<String>) {
         let width = 2 + rng.below(6);
         let nseq = 2 + rng.below(8);
         let lins: Vec<Vec<Nucleotide>> = (0..nseq).map(|_| { let l = width + 1 + rng.below(60); rand_syms::<Dna>(&mut rng, l, run % 3 == 0) }).collect();
-        let striped: Vec<StripedSequence<Dna, U32>> = lins.iter().map(|s| { let mut st: StripedSequence<Dna, U32> = Pipeline::<Dna, _>::generic().stripe(&s[..]); st.configure_wrap(width); st }).collect();
+        let striped: Vec<StripedSequence<Dna, U32>> = lins.iter().map(|s| {
+            let mut st: StripedSequence<Dna, U32> = if run % 4 == 3 {
+                // padding cells that are not wildcards (as StripedSequence::sample produces)
+                let l = s.len(); let r = (l + 31) / 32; let mut m = DenseMatrix::<Nucleotide, U32>::new(r);
+                for row in 0..r { for col in 0..32 { let p = col * r + row; m[row][col] = if p < l { s[p] } else { Dna::symbols()[(p * 5) % 4] }; } }
+                StripedSequence::new(m, l).unwrap()
+            } else { Pipeline::<Dna, _>::generic().stripe(&s[..]) };
+            st.configure_wrap(width); st }).collect();
         let zoops = run % 2 == 1;
         let steps = if tier == "thorough" { 300 } else { 120 };
         let case = format!("run={} width={} nseq={} zoops={} lens={:?}", run, width, nseq, zoops, lins.iter().map(|s| s.len()).collect::<Vec<_>>());
